@@ -55,11 +55,12 @@ Definition write {A} (l : list A) (lo : nat) (seg : list A) : list A :=
   firstn lo l ++ seg ++ skipn (lo + length seg) l.
 Definition segment {A} (l : list A) (lo m : nat) : list A := firstn m (skipn lo l).
 
-(* old = copy(v[idx]); v[idx] = val; check; on failure v[idx] = old and ValueError *)
+(* old_vector = v.copy(); v[idx] = val (an exception here: v = old_vector, re-raised - the [(s, Err..)] branches of
+   the callers); check; on failure v = old_vector and ValueError *)
 Definition assign (tol : Q) (s : state) (lo : nat) (seg : list amp) : state * outcome :=
-  let old := segment (amps s) lo (length seg) in
+  let old_vector := amps s in
   let l' := write (amps s) lo seg in
-  if check tol l' then ((bk s, l'), Ok) else ((bk s, write l' lo old), ErrValue).
+  if check tol l' then ((bk s, l'), Ok) else ((bk s, old_vector), ErrValue).
 
 Definition set_item (tol : Q) (s : state) (i : Z) (v : amp) : state * outcome :=
   let n := Z.of_nat (length (amps s)) in
@@ -67,15 +68,22 @@ Definition set_item (tol : Q) (s : state) (i : Z) (v : amp) : state * outcome :=
   else if negb (is_mat (bk s)) && is_symb v then (s, ErrType)
   else assign tol s (Z.to_nat (if (i <? 0)%Z then i + n else i)%Z) [v].
 
+(* wf[i] = [v1, ..., vk] (a list at an integer index).  sympy turns the list into a column and copies it in at
+   rows i .. i+k-1 (it spills over the following entries; a column that does not fit is a ShapeError); a flat numpy
+   array refuses a sequence for one element; a column-shaped numpy array takes a one-element list for its row *)
+Definition set_item_list (tol : Q) (s : state) (i : Z) (vs : list amp) : state * outcome :=
+  let n := Z.of_nat (length (amps s)) in
+  if (i <? - n)%Z || (n <=? i)%Z then (s, ErrIndex)
+  else let a := Z.to_nat (if (i <? 0)%Z then i + n else i)%Z in
+       match bk s with
+       | Mat => if Nat.leb (a + length vs) (length (amps s)) then assign tol s a vs else (s, ErrValue)
+       | NpFlat => (s, ErrType)
+       | NpCol => if has_symb vs then (s, ErrType)
+                  else match vs with [v] => assign tol s a [v] | _ => (s, ErrValue) end
+       end.
+
 (* slice.indices(n) for a slice without step *)
 Definition clip (n i : Z) : Z := if (i <? 0)%Z then Z.max (i + n) 0 else Z.min i n.
-
-(* the leading numbers of a value list, up to its first symbol *)
-Fixpoint num_prefix (vs : list amp) : list amp :=
-  match vs with
-  | Num r i :: t => Num r i :: num_prefix t
-  | _ => []
-  end.
 
 Definition set_slice (tol : Q) (s : state) (lo hi : Z) (vs : list amp) : state * outcome :=
   let n := Z.of_nat (length (amps s)) in
@@ -88,11 +96,11 @@ Definition set_slice (tol : Q) (s : state) (lo hi : Z) (vs : list amp) : state *
       if Nat.eqb k 0 && Z.eqb a 0 && Z.eqb b 0 then assign tol s 0 [] else (s, ErrValue)
   | NpFlat =>
       if has_symb vs then
-        (* numpy cannot convert a symbol: TypeError out of the assignment itself, before the normalisation test and
-           outside its try block.  When the shapes match numpy converts in place, element by element, so the numbers
-           in front of the first symbol have already been stored (observed with numpy 2.x); otherwise it fails while
-           building a temporary and nothing is stored. *)
-        if Nat.eqb k m then ((bk s, write (amps s) (Z.to_nat a) (num_prefix vs)), ErrType) else (s, ErrType)
+        (* numpy cannot convert a symbol: TypeError out of the in-place write.  When the shapes match numpy has by
+           then already stored the numbers in front of the first symbol (observed with numpy 2.x); __setitem__ catches
+           any exception of the write, puts the snapshot old_vector back and re-raises (fix of finding F37), so the
+           object is as before *)
+        (s, ErrType)
       else if Nat.eqb k m then assign tol s (Z.to_nat a) vs
       else match vs with
            | [v] => assign tol s (Z.to_nat a) (repeat v m)      (* numpy broadcasting *)
@@ -128,6 +136,7 @@ Definition bind (tol : Q) (s : state) (m : list (positive * amp)) : state * outc
 (* ---------------------------------------------------------------- histories *)
 Inductive op :=
 | SetItem (i : Z) (v : amp)
+| SetItemList (i : Z) (vs : list amp)
 | SetSlice (lo hi : Z) (vs : list amp)
 | Bind (m : list (positive * amp)).
 
@@ -135,6 +144,7 @@ Inductive op :=
 Definition step (tol : Q) (s : state) (o : op) : state * outcome :=
   match o with
   | SetItem i v => set_item tol s i v
+  | SetItemList i vs => set_item_list tol s i vs
   | SetSlice lo hi vs => set_slice tol s lo hi vs
   | Bind m => fst (bind tol s m)
   end.
@@ -145,28 +155,6 @@ Fixpoint trace (tol : Q) (s : state) (ops : list op) : list (outcome * state) :=
   | [] => []
   | o :: r => let '(s', res) := step tol s o in (res, s') :: trace tol s' r
   end.
-
-(* the one situation in which an operation raises and still changes the object (finding F27): a slice assignment
-   into flat numpy storage whose values match the slice length and contain a symbol after at least one number *)
-Definition partial_write_hazard (s : state) (o : op) : bool :=
-  match o with
-  | SetSlice lo hi vs =>
-      let n := Z.of_nat (length (amps s)) in
-      let m := Z.to_nat (Z.max (clip n hi - clip n lo) 0) in
-      match bk s with
-      | NpFlat => has_symb vs && Nat.eqb (length vs) m && negb (is_symb (hd (Symb 1) vs))
-      | _ => false
-      end
-  | _ => false
-  end.
-Fixpoint safe_history (tol : Q) (s : state) (ops : list op) : bool :=
-  match ops with
-  | [] => true
-  | o :: r => negb (partial_write_hazard s o) && safe_history tol (fst (step tol s o)) r
-  end.
-(* sufficient, and independent of the state: no slice assignment carries a symbol *)
-Definition slice_values_numeric (o : op) : bool :=
-  match o with SetSlice _ _ vs => negb (has_symb vs) | _ => true end.
 
 Definition Inv (tol : Q) (s : state) : Prop :=
   pow2b (length (amps s)) = true /\ check tol (amps s) = true /\ (bk s <> Mat -> has_symb (amps s) = false).
